@@ -309,6 +309,26 @@ VARIANTS["C06"] = [
     R("clear_edges-in-place-loop", HG, "        for node in self.nodes:\n            self._node[node] = set()\n        self._edge.clear()", "        for node in self._node:\n            self._node[node] = set()\n        self._edge.clear()"),
 ]
 
+# --------------------------------------------------------------------------- C07
+CV = "xgi/convert/higher_order_network.py"
+VARIANTS["C07"] = [
+    M("hg-copy-node-attr-shared", HG, "        cp.add_nodes_from((n, deepcopy(attr)) for n, attr in nn.items())\n        ee = self.edges\n        cp.add_edges_from(", "        cp.add_nodes_from((n, attr) for n, attr in nn.items())\n        ee = self.edges\n        cp.add_edges_from(", "A1-DEEP", "Hypergraph.copy"),
+    M("dh-copy-edge-attr-shallow", DH, "            (e, idx, deepcopy(self.edges[idx]))\n            for idx, e in ee.dimembers(dtype=dict).items()", "            (e, idx, self.edges[idx].copy())\n            for idx, e in ee.dimembers(dtype=dict).items()", "A1-DEEP", "DiHypergraph.copy"),
+    M("sc-copy-net-attr-shallow", SC, "        cp._net_attr = deepcopy(self._net_attr)\n\n        cp._edge_uid", "        cp._net_attr = self._net_attr.copy()\n\n        cp._edge_uid", "A1-DEEP", "SimplicialComplex.copy"),
+    M("hg-copy-shared-counter", HG, "        cp._edge_uid = copy(self._edge_uid)\n", "        cp._edge_uid = self._edge_uid\n", "U-OWN", "copy"),
+    M("dh-copy-drops-edge-ids", DH, "            (e, idx, deepcopy(self.edges[idx]))\n            for idx, e in ee.dimembers(dtype=dict).items()", "            (e, deepcopy(self.edges[idx]))\n            for idx, e in ee.dimembers(dtype=dict).items()", "A3", "DiHypergraph.copy"),
+    M("hg-copy-skips-empty-edges", HG, "            for idx, e in ee.members(dtype=dict).items()\n        )\n        cp._net_attr = deepcopy(self._net_attr)\n\n        cp._edge_uid = copy(self._edge_uid)\n\n        return cp\n\n    def dual", "            for idx, e in ee.members(dtype=dict).items()\n            if e\n        )\n        cp._net_attr = deepcopy(self._net_attr)\n\n        cp._edge_uid = copy(self._edge_uid)\n\n        return cp\n\n    def dual", "A3", "Hypergraph.copy"),
+    M("hg-copy-no-net-attr", HG, "        cp._net_attr = deepcopy(self._net_attr)\n\n        cp._edge_uid = copy(self._edge_uid)\n\n        return cp\n\n    def dual", "        cp._edge_uid = copy(self._edge_uid)\n\n        return cp\n\n    def dual", "A3", "Hypergraph.copy"),
+    M("getstate-drops-net-attr", HG, "            \"_net_attr\": self._net_attr,\n", "", "A2", "Hypergraph"),
+    M("setstate-swaps-tables", DH, "        self._node_attr = state[\"_node_attr\"]\n        self._edge = state[\"_edge\"]", "        self._node_attr = state[\"_edge_attr\"]\n        self._edge = state[\"_edge\"]", "A2", "DiHypergraph"),
+    M("init-new-attribute-not-pickled", HG, "        self._edge_attr = self._edge_attr_dict_factory()\n\n        self._nodeview = NodeView(self)\n        \"\"\"A :class:`~xgi.core.views.NodeView` of the hypergraph.\"\"\"", "        self._edge_attr = self._edge_attr_dict_factory()\n        self._edge_order = []\n\n        self._nodeview = NodeView(self)\n        \"\"\"A :class:`~xgi.core.views.NodeView` of the hypergraph.\"\"\"", "A2", "Hypergraph"),
+    M("converter-shares-net-attr", CV, "        H.add_edges_from((ee.members(e), e, deepcopy(attr)) for e, attr in ee.items())\n        H._net_attr = deepcopy(data._net_attr)\n        return H\n\n    elif isinstance(data, DiHypergraph):", "        H.add_edges_from((ee.members(e), e, deepcopy(attr)) for e, attr in ee.items())\n        H._net_attr = data._net_attr\n        return H\n\n    elif isinstance(data, DiHypergraph):", "A1-SHALLOW", "to_hypergraph"),
+    M("add_edges_from-stores-caller-set", HG, "                    members = list(members)\n                    edge = set(members)\n                    if None in edge:\n                        raise XGIError(\"None cannot be a node\")\n                    self._edge[idx] = edge\n                except TypeError as e:\n                    raise XGIError(\"Invalid ebunch format\") from e\n\n                for n in members:", "                    edge = members if isinstance(members, set) else set(members)\n                    if None in edge:\n                        raise XGIError(\"None cannot be a node\")\n                    self._edge[idx] = edge\n                except TypeError as e:\n                    raise XGIError(\"Invalid ebunch format\") from e\n\n                for n in edge:", "A1-MUT", "Hypergraph.add_edges_from"),
+    M("add_nodes_from-stores-caller-dict", HG, "            if newnode:\n                self._node[n] = set()\n                self._node_attr[n] = self._node_attr_dict_factory()\n            self._node_attr[n].update(newdict)", "            if newnode:\n                self._node[n] = set()\n                self._node_attr[n] = newdict\n            else:\n                self._node_attr[n].update(newdict)", "A1-MUT", "Hypergraph.add_nodes_from"),
+    R("copy-deepcopy-via-module-alias", HG, "        cp._net_attr = deepcopy(self._net_attr)\n\n        cp._edge_uid = copy(self._edge_uid)\n\n        return cp\n\n    def dual", "        net_attr = deepcopy(self._net_attr)\n        cp._net_attr = net_attr\n\n        cp._edge_uid = copy(self._edge_uid)\n\n        return cp\n\n    def dual", exit2_ok=True),
+    R("copy-views-inlined", DH, "        nn = self.nodes\n        cp.add_nodes_from((n, deepcopy(attr)) for n, attr in nn.items())", "        cp.add_nodes_from((n, deepcopy(attr)) for n, attr in self.nodes.items())"),
+]
+
 
 def variants_for(prop):
     return list(VARIANTS.get(prop, []))
